@@ -3,7 +3,7 @@ import os, re, subprocess, sys
 from vlib import common as C
 from vlib.simlib import SIM_WRAPS
 
-# clean (exit 0 + KNOWN-FINDING lines) at seeds 1..7 quick and seed 1 thorough on 2026-09-26
+# clean (exit 0 + KNOWN-FINDING line) at seeds 1..5 quick on 2026-09-26 with the 15-scenario catalogue
 MANIFEST = {
     "category": "proof",
     "text": "PROOF for the helper layer and the send-path skeleton, FAULT ENUMERATION for the catalogue. Proved in Lean for every "
@@ -16,14 +16,19 @@ MANIFEST = {
             "next_op_succeeds, alloc_count_matches, and ledger_replay / script_ledger_ok (for every script and oracle M's ledger is "
             "exactly what the verified monitor ledgerOk computes from M's trace). M is tied to the compiled code by running generated "
             "helper scripts under every single failing request index (and sampled pairs) on both and comparing return values, request "
-            "counts, PDU bytes, alloc_size, queues and the allocation trace event by event. NOT proved, enumerated only: the scenarios "
-            "uri, pdu, request/response, Block1, Block2, observe, set-up/tear-down, OSCORE, 5.08 are run on the real code with every "
-            "single allocation request failing (thorough: every pair), each followed by a canary exchange on the same contexts, and "
+            "counts, PDU bytes, alloc_size, queues and the allocation trace event by event. NOT proved, enumerated only: the 15 scenarios "
+            "uri, pdu, request/response, Block1, Block2, observe, set-up/tear-down, OSCORE, 5.08, /.well-known/core of a 17-resource "
+            "server (block-wise, with filters), hand-built Block1 upload without Size1 (in and out of order), hand-written Block2 "
+            "server without Size2 (no ETag / ETag / changing ETag), block-wise observe, cache entries with app data, async are run on "
+            "the real code with every single allocation request failing (1476 runs; thorough: every pair, capped at 40000 per scenario = all 120833 at present), "
+            "each followed by a canary exchange on the same contexts, and "
             "judged by ASan/UBSan, the verified ledger monitor on the REAL allocation trace, LSan, PDU-consumed evidence and the canary; "
             "this searches for a failing (scenario, k) and validates nothing beyond what it executes.",
-    "note": "Nine libcoap defects found and fixed on the way (7f66d7b, 47c32b4, f9e8f3f, 6ae2552, 4fd6ca8, 9615ea7, 5853ae9, 0fee4a9, "
-            "e75b657), three open findings (OSCORE configuration parser ignores allocation failures; Block2 SINGLE_BODY hands a single "
-            "block to the application; Block1 server keeps a block marked received whose bytes were not stored). Only requests made "
+    "note": "Sixteen libcoap defects found and fixed on the way (0610a0b, adbeebe, ce0a05c, 2d14466, 3099b1b, 86b2de5, 816a9d6, 19e457a, "
+            "5d6f374; with the extended catalogue: a6a88dc cache data pointer UB, 8d39ad0 coap_add_attr, dd57cca Block2 first block "
+            "handed over as complete, 28062c6 Block1 body with missing blocks, f15c102 last_token NULL, 434fe3b cache ignore list, "
+            "222545f cache entry PDU leak), one open finding (OSCORE configuration parser ignores allocation failures). TCP/TLS/WS "
+            "sessions, Q-Block and proxy paths are not in the catalogue. Only requests made "
             "through coap_malloc_type/coap_realloc_type are failed (uthash's malloc exits on OOM; GnuTLS/libc untouched). Trusted: "
             "Lean kernel (+ propext, Classical.choice, Quot.sound), harness + allocator wrap + virtual-time epoll_wait + judge, "
             "addr2line for site names, the hand transcription M (checked on the scripts run).",
@@ -39,10 +44,17 @@ RULE = ("(1) helper-layer scripts `ahelp k1 k2 <ops>`: random sequences (4..16 c
         "(CON and NON, socket write ok or failing) with sizes on both sides of the 256-byte first buffer and of max_size, run "
         "under EVERY single failing request index (and sampled pairs) on the real code and on the model M: return values, "
         "number of requests, PDU bytes, alloc_size, queues and the allocation trace must be equal; "
-        "(2) fault ENUMERATION of the catalogue scenarios uri, pdu, rr, b1, b2, obs, setup, osc, h508 (harness/allocfail.c): "
-        "every single failing request index k (quick and thorough) and pairs (k, k2) (quick: a seeded sample, thorough: "
-        "all), each followed by a canary exchange, judged by ASan/UBSan, the Lean-verified ledger monitor on the real "
-        "allocation trace, LSan and the canary; non-trivial = a run in which at least one request actually failed")
+        "(2) fault ENUMERATION of the catalogue scenarios (harness/allocfail.c): uri, pdu, rr, b1, b2, obs, setup, osc, h508, "
+        "wkc (12 more resources with attributes, GET /.well-known/core unfiltered / rt=temp* / if=core.p / no match, block-wise), "
+        "b1raw (five hand-built 512-byte Block1 requests without Size1, in order and in the order 0,2,1,4,3, to a SINGLE_BODY "
+        "server), b2raw (libcoap client against a hand-written Block2 server side without Size2: no ETag, ETag, ETag changing "
+        "once), obsblk (observe of a 3-block body: registration, 2 notifications, cancel), cache (coap_cache_ignore_options, "
+        "derive_key, new_cache_entry with recorded PDU and app data, lookup, expiry, tear-down), async (coap_register_async, "
+        "coap_async_trigger, timer): every single failing request index k (quick and thorough) and pairs (k, k2) (quick: a "
+        "seeded sample of 4000, thorough: every pair of a scenario up to 40000 per scenario, i.e. at present all 120833 pairs; a seeded sample beyond), each "
+        "followed by a canary exchange, judged by ASan/UBSan, the Lean-verified ledger monitor on the real allocation trace, "
+        "LSan, PDU-consumed evidence, 'a 2.xx body that claims to be complete is the body' and the canary; non-trivial = a run "
+        "in which at least one request actually failed")
 TRUSTED_BASE = ["Lean 4.33 kernel; axioms allowed: propext, Classical.choice, Quot.sound (audited per theorem each run)",
                 "harness/allocfail.c on sim_core.h (virtual clock, scripted network, epoll_wait in virtual time), the wrapped "
                 "allocator (coap_malloc_type/realloc_type/free_type) that injects the failure and records the real trace, "
@@ -68,7 +80,8 @@ SPEC_DECISIONS = ["D18a 'the next operation with memory available succeeds' is c
                   "D18c a truncated or wrong body handed to the application as if complete is NOT a clean failure"]
 RUN_KW = {"timeout": 1800, "env": {"ASAN_OPTIONS": "detect_leaks=1:abort_on_error=0:exitcode=86:allocator_may_return_null=1:leak_check_at_exit=0"}}
 WRAPS = SIM_WRAPS + ["coap_malloc_type", "coap_realloc_type", "coap_free_type", "epoll_wait"]
-SCENARIOS = ["uri", "pdu", "rr", "b1", "b2", "obs", "setup", "osc", "h508"]
+PAIR_CAP = 40000        # thorough: pairs per scenario (every pair below it, a seeded sample above)
+SCENARIOS = ["uri", "pdu", "rr", "b1", "b2", "obs", "setup", "osc", "h508", "wkc", "b1raw", "b2raw", "obsblk", "cache", "async"]
 # visible outcome of every scenario when no request fails (k = 0)
 EXPECT0 = {
     "uri": "split0,u2o1,u2os0,p2o1,q2o1,ins1,olpdu1,path9,query8,str1111,rsz1,uri11,req0,rsp0,nack0,body0/0,put0/0",
@@ -80,6 +93,12 @@ EXPECT0 = {
     "setup": "up,down,req0,rsp0,nack0,body0/0,put0/0",
     "osc": "req1,rsp1,c2.05,nack0,body0/0,put0/0",
     "h508": "req1,rsp1,c5.08,nack0,body0/0,put0/0",
+    "wkc": "len1159,len393,len163,len0,req0,rsp4,c2.05,c2.05,c2.05,c2.05,nack0,body4/0,put0/0",
+    "b1raw": "req2,rsp10,c2.31,c2.31,c2.31,c2.31,c2.04,c2.31,c2.31,c2.31,c2.31,c2.04,nack0,body0/0,put2/0",
+    "b2raw": "req18,rsp3,c2.05,c2.05,c2.05,nack0,body3/0,put0/0",
+    "obsblk": "notify1,notify1,cancel1,notify0,req4,rsp4,c2.05,c2.05,c2.05,c2.05,nack0,body4/0,put0/0",
+    "cache": "ign1,ign1,cb1,key11,ent1,pdu313,bykey1,bypdu1,other1,req3,rsp3,c2.01,c2.05,c2.01,nack0,body0/0,put0/0",
+    "async": "pending1,req4,rsp2,c2.05,c2.05,nack0,body0/0,put0/0",
 }
 
 
@@ -193,10 +212,16 @@ def generate(ctx, escalate=False):
     for s in SCENARIOS:
         out.append("alloc %s 0" % s)
         out += ["alloc %s %d" % (s, k) for k in range(1, counts[s] + 1)]
-    pairs = [(s, a, b) for s in SCENARIOS for a in range(1, counts[s] + 1) for b in range(a + 1, counts[s] + 1)]
-    ctx.cov["pairs_total"] = len(pairs)
+    pairs = []
+    ctx.cov["pairs_total"] = 0
+    for s in SCENARIOS:
+        ps = [(s, a, b) for a in range(1, counts[s] + 1) for b in range(a + 1, counts[s] + 1)]
+        ctx.cov["pairs_total"] += len(ps)
+        if len(ps) > PAIR_CAP:                     # thorough: every pair of a scenario up to PAIR_CAP, a seeded sample beyond
+            ps = rng.sample(ps, PAIR_CAP)
+        pairs += ps
     if not thorough:
-        pairs = rng.sample(pairs, min(len(pairs), 2500))
+        pairs = rng.sample(pairs, min(len(pairs), 4000))
     ctx.cov["pairs_run"] = len(pairs)
     out += ["alloc %s %d %d" % p for p in pairs]
     # (1) modelled layer
@@ -343,13 +368,8 @@ def known(ctx, c):
     # coap_parse_oscore_conf_mem stops at the first entry it cannot store and returns the incomplete configuration
     if w[1] == "osc" and some_site("get_split_entry", "coap_parse_oscore_conf_mem") and what <= {"canary", "ledger", "lsan"}:
         return "oscore-conf-alloc-failure-ignored"
-    # any failure while coap_handle_response_get_block reassembles / asks for the next block: the single block goes to the app
-    if w[1] == "b2" and some_site("coap_handle_response_get_block") and what == {"body"}:
-        return "block2-partial-body-on-alloc-failure"
-    # coap_block_build_body fails in coap_handle_request_put_block (5.00 sent), the block stays recorded as received: when
-    # the request is repeated (5.00 lost) the transfer continues and the handler gets a body without that block
-    if w[1] == "b1" and some_site("coap_block_build_body", "coap_handle_request_put_block") and what == {"body"}:
-        return "block1-wrong-body-after-build-body-failure"
+    # (block2-partial-body-on-alloc-failure and block1-wrong-body-after-build-body-failure were open here until the fixes
+    #  dd57cca / 28062c6: no case of b1, b2, b1raw, b2raw, wkc, obsblk may be excused any more)
     return None
 
 
